@@ -8,12 +8,22 @@
 #include <universal/number/integer/integer.hpp>
 #include <universal/number/lns/lns.hpp>
 #include <universal/number/dd/dd.hpp>
+#include <sstream>
+#include <string>
 #include <thread>
 #include <vector>
 #include "proto.hpp"
 using namespace sw::universal;
 
 static inline uint64_t mix(uint64_t h, uint64_t v) { h ^= v + 0x9E3779B97F4A7C15ull + (h << 6) + (h >> 2); return h; }
+
+// decimal / stream output of a value (to_string where the type has it, operator<< otherwise), hashed
+template<typename T> uint64_t text(const T& x) {
+	std::string str;
+	if constexpr (requires { to_string(x); }) { str = to_string(x); }
+	std::stringstream ss; ss << x; str += ss.str();
+	uint64_t h = 1469598103934665603ull; for (char c : str) h = (h ^ (unsigned char)c) * 1099511628211ull; return h;
+}
 
 template<typename T, typename Set, typename Get>
 uint64_t program(uint64_t seed, unsigned ops, Set set, Get get) {
@@ -29,6 +39,7 @@ uint64_t program(uint64_t seed, unsigned ops, Set set, Get get) {
 		default: acc = x; break;
 		}
 		h = mix(h, get(acc));
+		if ((i & 31) == 0) h = mix(h, text(acc));
 	}
 	return h;
 }
@@ -36,11 +47,13 @@ uint64_t program(uint64_t seed, unsigned ops, Set set, Get get) {
 template<typename F>
 void family(const char* name, unsigned nthreads, unsigned ops, F run) {
 	uint64_t seed = uv::seed_from_env() * 977 + 13;
-	uint64_t seq = run(seed, ops);
 	std::vector<uint64_t> res(nthreads, 0);
 	std::vector<std::thread> th;
+	// the threads run FIRST, while every lazily initialised static / cache of the library is still cold; the sequential
+	// reference is computed afterwards (a harness that warms the library up first can never see an initialisation race)
 	for (unsigned t = 0; t < nthreads; ++t) th.emplace_back([&, t] { res[t] = run(seed, ops); });
 	for (auto& t : th) t.join();
+	uint64_t seq = run(seed, ops);
 	bool same = true; for (auto r : res) same = same && (r == seq);
 	std::printf("thr %s %u %u => %llx %d\n", name, nthreads, ops, (unsigned long long)seq, same ? 1 : 0);
 }
